@@ -8,6 +8,7 @@ from pathlib import Path
 from hypothesis import strategies as st
 
 from ..common import HarnessError, Violation, hyp_run, import_auditok, tmpdir
+from ..gen import rarely
 from ..oracles import decode, exact_round
 from .c10 import content
 
@@ -30,7 +31,7 @@ RULE = (
     "Non-trivial = (width != 2 or >= 2 channels) and >= 1 sample."
 )
 MUST_HIT = ["skip_between_samples", "empty_slice", "lazy_reader", "wav_sw1", "wav_sw4", "placeholder_name",
-            "exists_refused", "numpy_multichannel", "to_file_byteslike", "skip_beyond_65536_samples", "explicit_format"]
+            "exists_refused", "numpy_multichannel", "to_file_byteslike", "skip_beyond_65536_samples", "explicit_format", "to_file_typed_array", "more_than_1MiB"]
 ASSUMPTIONS = ["files are re-read with stdlib wave/open to judge the writer independently of the reader"]
 BOUNDS = {"quick": dict(n=500, maxN=200), "thorough": dict(n=6000, maxN=1500)}
 _ctr = [0]
@@ -74,7 +75,17 @@ def check_case(case, rec):
                 fp.write(b"SENTINEL")
         if writer == "to_file":
             dk = case.get("data_kind", "bytes")  # to_file documents bytes-like input
-            payload = {"bytes": data, "bytearray": bytearray(data), "memoryview": memoryview(data)}[dk]
+            if dk in ("array", "numpy"):
+                # documented inputs: array.array / numpy.ndarray with items of the sample width
+                import array as _array
+
+                import numpy as _np
+
+                code = {1: "b", 2: "h", 4: "i"}[sw]
+                payload = _array.array(code, data) if dk == "array" else _np.frombuffer(data, dtype={1: "<i1", 2: "<i2", 4: "<i4"}[sw])
+                classes.add("to_file_typed_array")
+            else:
+                payload = {"bytes": data, "bytearray": bytearray(data), "memoryview": memoryview(data)}[dk]
             if dk != "bytes":
                 classes.add("to_file_byteslike")
             to_file(payload, name_t, audio_format, sampling_rate=sr, sample_width=sw, channels=ch)
@@ -182,15 +193,24 @@ def check_case(case, rec):
         arr = region.numpy()
         if tuple(arr.shape) != (ch, N):
             raise Violation(f"numpy() shape {tuple(arr.shape)} != {(ch, N)}", case)
-        vals = decode(data, sw)
+        if N <= 5000:
+            vals = decode(data, sw)
+        else:
+            import array as _array  # independent (stdlib) decoder for big inputs; little-endian host asserted below
+
+            if sys.byteorder != "little":
+                raise HarnessError("big-endian host")
+            vals = _array.array({1: "b", 2: "h", 4: "i"}[sw], data).tolist()
         for c in range(ch):
-            row = [int(x) for x in arr[c]]
-            if row != vals[c::ch] or any(float(x) != v for x, v in zip(arr[c], vals[c::ch])):
+            row = arr[c].tolist()
+            if row != [float(v) for v in vals[c::ch]]:
                 raise Violation(f"numpy()[{c}] differs from the signed little-endian samples of channel {c}", case)
         if ch > 1 and N:
             classes.add("numpy_multichannel")
         if N > 65536 and skip is not None and a > 65536:
             classes.add("skip_beyond_65536_samples")
+        if len(data) > 2**20:
+            classes.add("more_than_1MiB")
         rec.note(case, N > 0 and (sw != 2 or ch > 1), classes, out={"file": os.path.basename(path), "read": len(got) // bps})
     finally:
         for fn_ in os.listdir(d):
@@ -219,6 +239,9 @@ def explicit_cases():
         dict(base, fmt_how="explicit_mixed", mixed="WAVE", writer="to_file", reader="load", skip=None, mr=None),
         dict(base, fmt_how="explicit_mixed", mixed="Wave", reader="from_file_lazy", tmpl=None),
         dict(base, N=66000, sw=2, ch=2, sr=16000, skip=[65600, 0], mr=[100, 0], tmpl=None),
+        dict(base, N=300000, sw=2, ch=2, sr=16000, fmt="raw", writer="to_file", data_kind="array", reader="from_file_lazy", skip=None, mr=None, tmpl=None),
+        dict(base, N=300000, sw=4, ch=1, sr=16000, fmt="raw", writer="to_file", data_kind="numpy", reader="load", skip=[299990, 0], mr=None, tmpl=None),
+        dict(base, N=40, sw=2, ch=2, fmt="wav", writer="to_file", data_kind="array", reader="load", skip=None, mr=None, tmpl=None),
         dict(base, N=66000, sw=2, ch=1, sr=8000, fmt="raw", reader="load_lazy", skip=[65999, 0.25], mr=None, tmpl=None),
     ]
 
@@ -233,10 +256,10 @@ def strategy(draw, maxN):
     sw = draw(st.sampled_from([1, 2, 4]))
     ch = draw(st.integers(1, 5))
     N = draw(st.one_of(st.integers(0, 3), st.integers(0, maxN)))
-    big = draw(st.integers(0, 39)) == 0
+    big = draw(rarely(40))
     if big:
-        # more than 2**16 samples: skip / max_read far into the file
-        N = draw(st.integers(65537, 70000))
+        # more than 2**16 samples: skip / max_read far into the file; now and then more than a MiB of data
+        N = draw(st.sampled_from([65535, 65536, 65537, 70000, 66000, 300000]))
         ch = min(ch, 2)
     fmt = draw(st.sampled_from(["wav", "raw"]))
     hows = ["ext", "ext_upper", "explicit", "explicit_wave", "explicit_upper", "explicit_mixed"] + (["noext"] if fmt == "raw" else [])
@@ -249,11 +272,11 @@ def strategy(draw, maxN):
                 pre_existing=draw(st.booleans()) and draw(st.booleans()),
                 exists_ok=draw(st.booleans()),
                 path_obj=draw(st.booleans()),
-                data_kind=draw(st.sampled_from(["bytes", "bytes", "bytearray", "memoryview"])),
+                data_kind=draw(st.sampled_from(["bytes", "bytes", "bytearray", "memoryview", "array", "numpy"])),
                 mixed=draw(st.sampled_from(["WAVE", "Wave", "Wav", "wAVE"])),
-                skip=draw(st.one_of(st.none(), st.tuples(st.integers(0, N + 4), st.sampled_from([0, 0.25, 0.75])).map(list),
+                skip=draw(st.one_of(st.none(), st.tuples(st.integers(0, N + 4), st.sampled_from([0, 0.25, 0.5, 0.75])).map(list),
                                  st.tuples(st.integers(max(N - 4000, 0), N + 4), st.sampled_from([0, 0.25])).map(list))),
-                mr=draw(st.one_of(st.none(), st.tuples(st.integers(0, N + 4), st.sampled_from([0, 0.25, 0.75])).map(list))))
+                mr=draw(st.one_of(st.none(), st.tuples(st.integers(0, N + 4), st.sampled_from([0, 0.25, 0.5, 0.75])).map(list))))
     return case
 
 
